@@ -152,7 +152,16 @@ EQUIV += [
     ("E24", "penguin/src/client/maybe_retryable.rs", "            Self::Tungstenite(e) => e.retryable(),\n            Self::TcpConnect(e) => e.retryable(),\n            Self::Tls(e) => e.retryable(),\n            Self::Mux(e) => e.retryable(),\n            Self::HandshakeTimeout | Self::StreamRequestTimeout | Self::ServerDisconnected => true,", "            Self::HandshakeTimeout | Self::StreamRequestTimeout => true,\n            Self::ServerDisconnected => true,\n            Self::Mux(e) => e.retryable(),\n            Self::Tungstenite(e) => e.retryable(),\n            Self::TcpConnect(e) => e.retryable(),\n            Self::Tls(e) => e.retryable(),", ["C19"]),
     ("E25", "penguin/src/server/websocket.rs", "                            mpsc::error::TrySendError::Closed(_) => {\n                                // This client has been pruned, so we should\n                                // remove it from the map and hopefully\n                                // the client will try again.\n                                trace!(\"UDP client {flow_id} has been pruned\");\n                                udp_clients.remove(&flow_id);\n                            }", "                            mpsc::error::TrySendError::Closed(_) => {\n                                udp_clients.remove(&flow_id);\n                                trace!(\"UDP client {flow_id} has been pruned\");\n                            }", ["C01"]),
 ]
+EQUIV += [
+    ("E26", "penguin-mux/src/task.rs", "                let datagram = Datagram {\n                    flow_id,\n                    target_host: payload.target_host.into_static(),\n                    target_port: payload.target_port,\n                    data: payload.data.into_static(),\n                };\n                if let Err(e) = self.datagram_tx.try_send(datagram) {\n                    match e {\n                        TrySendError::Full(_) => warn!(\"Dropped datagram: {e}\"),\n                        TrySendError::Closed(_) => return Err(Error::Closed),\n                    }\n                }", "                self.deliver_datagram(flow_id, payload)?;", ["C11", "C10"]),
+    ("E27", "penguin-mux/src/timing.rs", "        self.count += 1;\n\n        let old = self.current.min(self.max);\n        self.current = old * self.mult;\n        Some(old)", "        let old = self.current.min(self.max);\n        self.current = old * self.mult;\n        self.count += 1;\n        Some(old)", ["C19"]),
+]
 EQUIV = [e for e in EQUIV if e[0] not in ("E07", "E10")]
+
+
+EXTRA = {
+    "E26": ("    /// Shared code for new stream stuff\n", "    /// Hand a datagram to the application (never blocks).\n    fn deliver_datagram(&self, flow_id: u32, payload: crate::frame::DatagramPayload<'static>) -> Result<()> {\n        let datagram = Datagram {\n            flow_id,\n            target_host: payload.target_host.into_static(),\n            target_port: payload.target_port,\n            data: payload.data.into_static(),\n        };\n        if let Err(e) = self.datagram_tx.try_send(datagram) {\n            match e {\n                TrySendError::Full(_) => warn!(\"Dropped datagram: {e}\"),\n                TrySendError::Closed(_) => return Err(Error::Closed),\n            }\n        }\n        Ok(())\n    }\n\n    /// Shared code for new stream stuff\n"),
+}
 
 
 def run(cmd, **kw):
@@ -198,7 +207,12 @@ def main():
             print(eid, "anchor text not found in", f)
             results.append((eid, "ANCHOR-MISSING", [], []))
             continue
-        open(p, "w").write(s.replace(old, new, 1))
+        s2 = s.replace(old, new, 1)
+        if eid in EXTRA:
+            a, b2 = EXTRA[eid]
+            assert a in s2, eid
+            s2 = s2.replace(a, b2, 1)
+        open(p, "w").write(s2)
         fired = []
         for c in checks:
             env = dict(os.environ, PGCHECK_REPO=WT, PGCHECK_EVID=EVID)
